@@ -1,5 +1,7 @@
 package c15
 
+// Timing helpers used while sizing the search (skipped unless C15_SMOKE is set); not part of the check.
+
 import (
 	"fmt"
 	"os"
@@ -11,7 +13,7 @@ import (
 	"github.com/anyproto/any-sync/app/logger"
 )
 
-func TestSmoke(t *testing.T) {
+func TestBenchBoot(t *testing.T) {
 	if os.Getenv("C15_SMOKE") == "" {
 		t.Skip()
 	}
@@ -40,7 +42,7 @@ func TestSmoke(t *testing.T) {
 	fmt.Println("boot+close", time.Since(t0)/time.Duration(N))
 }
 
-func TestSizes(t *testing.T) {
+func TestBenchTemplateSize(t *testing.T) {
 	if os.Getenv("C15_SMOKE") == "" {
 		t.Skip()
 	}
@@ -56,7 +58,7 @@ func TestSizes(t *testing.T) {
 	}
 }
 
-func TestPhases(t *testing.T) {
+func TestBenchPhases(t *testing.T) {
 	if os.Getenv("C15_SMOKE") == "" {
 		t.Skip()
 	}
